@@ -122,6 +122,15 @@ def run(ctx):
             continue
         cid, kv = parse_kv_line(line)
         kind = kv.get("kind")
+        if kind == "P":
+            evals += 1
+            kinds["P"] += 1
+            judge_eval += 1
+            dist["P:history-step-with-flag:" + kv.get("outcome", "?").split(":")[0]] += 1
+            if kv.get("judge") != "ok":
+                report_judge(cid, kv, kv.get("clause", "cancelled-prefix"),
+                             "a run with a cancellation flag (step of a history over one Highlighter): outcome %s, expected %s" % (kv.get("outcome"), kv.get("expect")))
+            continue
         if kind == "E":
             evals += 1
             kinds["E"] += 1
@@ -285,6 +294,8 @@ def run(ctx):
                 dist["H:with-injections"] += 1
             if cid.startswith("HL"):
                 dist["H:one-token-longer-than-1KiB"] += 1
+            if "." in cid and cid.startswith("S"):
+                dist["H:completed-run-inside-a-history"] += 1
             if len(samples) < 4 and evals % 97 == 1:
                 samples.append({"case": cid, "spec": spec[:300], "result": kv})
         if kind != "H" and len(samples) < 8 and evals % 1499 == 1:
